@@ -243,6 +243,77 @@ def _init_seed_statements(init: ast.FunctionDef):
     return out, (game_i is not None and last < game_i)
 
 
+def _game_assignments(fn: ast.FunctionDef) -> List[str]:
+    return [ast.unparse(st.value) for st in ast.walk(fn) if isinstance(st, (ast.Assign, ast.AnnAssign)) and st.value is not None
+            and ast.unparse(st.targets[0] if isinstance(st, ast.Assign) else st.target) == "self.game"]
+
+
+def _other_env_classes() -> str:
+    """The other two environment classes (session/ray_envs.py). `PrimaiteRayMARLEnv` drives a game directly: what its `reset` / `__init__`
+    assign to `self.game`, what `reset` (re)binds, what the other methods assign, how it looks its agents up, and EVERY call in the class
+    that seeds or is handed a seed (expected: none - its `reset(seed=…)` is the unseeded reset). `PrimaiteRayEnv` wraps a `PrimaiteGymEnv`:
+    what it binds `self.env` to, what it assigns after `__init__`, and the calls through which it delegates."""
+    ray = parse("session/ray_envs.py")
+    m = class_def(ray, "PrimaiteRayMARLEnv")
+    mm = {n.name: n for n in m.body if isinstance(n, ast.FunctionDef)}
+    for need in ("__init__", "reset", "step", "agents", "close"):
+        if need not in mm:
+            raise ValueError(f"PrimaiteRayMARLEnv.{need} not found")
+    rg, ig = _game_assignments(mm["reset"]), _game_assignments(mm["__init__"])
+    if len(rg) != 1 or len(ig) != 1:
+        raise ValueError(f"PrimaiteRayMARLEnv: expected one `self.game = …` in reset and in __init__, found {len(rg)} / {len(ig)}")
+    top_reset = [ast.unparse(st.targets[0] if isinstance(st, ast.Assign) else st.target) for st in mm["reset"].body
+                 if isinstance(st, (ast.Assign, ast.AnnAssign))]
+    later = []
+    for name, fn in mm.items():
+        if name not in ("__init__", "reset"):
+            later += [f"{name}:{a}" for a in _assigned(fn)]
+    seedish = []
+    for name, fn in mm.items():
+        for n in ast.walk(fn):
+            if isinstance(n, ast.Call):
+                f = ast.unparse(n.func)
+                if "seed" in f.lower() or any(k.arg and "seed" in k.arg.lower() for k in n.keywords) \
+                        or any(isinstance(a, ast.Name) and "seed" in a.id.lower() for a in n.args):
+                    seedish.append(f"{name}:{ast.unparse(n)}")
+    agents_ret = [ast.unparse(n.value) for n in ast.walk(mm["agents"]) if isinstance(n, ast.Return)]
+    agents_stmts = [st for st in mm["agents"].body if not (isinstance(st, ast.Expr) and isinstance(st.value, ast.Constant))]
+    r = class_def(ray, "PrimaiteRayEnv")
+    rm = {n.name: n for n in r.body if isinstance(n, ast.FunctionDef)}
+    for need in ("__init__", "reset", "step", "close", "game"):
+        if need not in rm:
+            raise ValueError(f"PrimaiteRayEnv.{need} not found")
+    env_src = [ast.unparse(st.value) for st in rm["__init__"].body if isinstance(st, ast.Assign) and ast.unparse(st.targets[0]) == "self.env"]
+    r_later = []
+    for name, fn in rm.items():
+        if name != "__init__":
+            r_later += [f"{name}:{a}" for a in _assigned(fn)]
+
+    def env_calls(fn, meth):
+        return sorted({ast.unparse(n) for n in ast.walk(fn) if isinstance(n, ast.Call) and ast.unparse(n.func) == f"self.env.{meth}"})
+    game_ret = [ast.unparse(n.value) for n in ast.walk(rm["game"]) if isinstance(n, ast.Return)]
+    return f"""/-- `PrimaiteRayMARLEnv`: the expressions `reset` / `__init__` assign to `self.game` -/
+def marlResetGameSource : String := {_l(rg)[1:-1]}
+def marlInitGameSource : String := {_l(ig)[1:-1]}
+/-- `PrimaiteRayMARLEnv.reset`: attributes (re)bound or mutated; are the game assignment and the counter increment top-level statements -/
+def marlResetAssigns : List String := {_l(_assigned(mm['reset']))}
+def marlResetTopLevelTargets : List String := {_l(top_reset)}
+/-- `PrimaiteRayMARLEnv`: `method:attribute` assigned by the methods other than `__init__` / `reset` -/
+def marlLaterWrites : List String := {_l(later)}
+/-- `PrimaiteRayMARLEnv`: every call that seeds something or is handed a seed (`method:call`) -/
+def marlSeedCalls : List String := {_l(seedish)}
+/-- `PrimaiteRayMARLEnv.agents`: number of statements (docstring aside) and what it returns -/
+def marlAgentsStatements : Nat := {len(agents_stmts)}
+def marlAgentsReturns : List String := {_l(agents_ret)}
+/-- `PrimaiteRayEnv`: what `self.env` is bound to, what is assigned after `__init__`, the delegating calls, the `game` property -/
+def rayEnvSource : List String := {_l(env_src)}
+def rayEnvLaterWrites : List String := {_l(r_later)}
+def rayEnvResetCalls : List String := {_l(env_calls(rm['reset'], 'reset'))}
+def rayEnvStepCalls : List String := {_l(env_calls(rm['step'], 'step'))}
+def rayEnvCloseCalls : List String := {_l(env_calls(rm['close'], 'close'))}
+def rayEnvGameReturns : List String := {_l(game_ret)}"""
+
+
 def emit() -> str:
     env_tree = parse("session/environment.py")
     env = class_def(env_tree, "PrimaiteGymEnv")
@@ -312,6 +383,7 @@ def emit() -> str:
     seed_fn, seed_calls, seed_param = _seed_function(env_tree)
     guard, seed_call, seed_i, game_i = _reset_seed_statement(reset)
     init_seed, init_seed_first = _init_seed_statements(methods["__init__"])
+    marl = _other_env_classes()
     # every function of the package that (re)seeds a process-global generator
     return f"""import PrimaiteModel.Model.Isolation
 namespace Primaite.Gen.IsolationReset
@@ -352,6 +424,7 @@ def listSchedulerReturns : List String := {_l(lst_ret)}
 def listSchedulerParsedBy : String := "{parsed_from}"
 def listSchedulerAssigns : List String := {_l(_assigned(lst))}
 def listSchedulerCalls : List String := {_l(sorted(set(lst_calls)))}
+{marl}
 end Primaite.Gen.IsolationReset
 """
 
